@@ -97,6 +97,13 @@ pub fn ramp_history(k: usize) -> Vec<Value> {
     // offered load at least q per half second
     let g = if q > 250 { 1 } else if q > 100 { 2 } else if q > 50 { 5 } else { 10 };
     let mut evs = header(q, c, p);
+    // every third history: a plain reject rule between q/c and q next to the warm-up rule; another third: the
+    // same warm-up rule re-loaded under a new id, with an unrelated resource added, once it is warm
+    let variant = k % 3;
+    if variant == 1 {
+        let d = (q / c.max(3) + q) / 2;
+        evs[1]["rules"].as_array_mut().unwrap().push(json!({"id": "f2", "res": "r1", "thr": [d, 1], "I": 0}));
+    }
     let mut id = 0;
     let mut sec = 0u64;
     let mut run = |evs: &mut Vec<Value>, sec: &mut u64, len: u64| {
@@ -110,7 +117,14 @@ pub fn ramp_history(k: usize) -> Vec<Value> {
             *sec += 1;
         }
     };
-    run(&mut evs, &mut sec, 2 * p + 6);
+    run(&mut evs, &mut sec, 2 * p + 4);
+    if variant == 2 {
+        let mut w = rule(q, c, p);
+        w["id"] = json!("w1~1");
+        evs.push(json!({"e": "load", "fam": "flow", "op": "all", "t": sec * 1000,
+                        "rules": [{"id": "z1", "res": "rz", "thr": [5, 1], "I": 0}, w]}));
+    }
+    run(&mut evs, &mut sec, 2);
     sec += 2 * p;
     run(&mut evs, &mut sec, p + 2);
     evs.push(json!({"e": "adv", "t": (sec + 1) * 1000}));
